@@ -644,4 +644,6 @@ if __name__ == "__main__":
     code, out = main(sys.argv[1:])
     if out and "--json" in sys.argv:
         print(json.dumps(out, indent=1, default=str))
+    if out and "--json-file" in sys.argv:
+        json.dump(out, open(sys.argv[sys.argv.index("--json-file") + 1], "w"), indent=1, default=str)
     sys.exit(code)
